@@ -737,6 +737,11 @@ pub(crate) trait AnalogConversions {
     fn get_flags(&self) -> Flags;
 
     fn to_i16(&self) -> (Flags, i16) {
+        // an integer variation cannot represent NaN: whatever is sent must not look valid
+        if self.get_value().is_nan() {
+            return (self.get_flags().with_bits_set(Self::OVER_RANGE), 0);
+        }
+
         if self.get_value() < i16::MIN.into() {
             return (self.get_flags().with_bits_set(Self::OVER_RANGE), i16::MIN);
         }
@@ -749,6 +754,11 @@ pub(crate) trait AnalogConversions {
     }
 
     fn to_i32(&self) -> (Flags, i32) {
+        // an integer variation cannot represent NaN: whatever is sent must not look valid
+        if self.get_value().is_nan() {
+            return (self.get_flags().with_bits_set(Self::OVER_RANGE), 0);
+        }
+
         if self.get_value() < i32::MIN.into() {
             return (self.get_flags().with_bits_set(Self::OVER_RANGE), i32::MIN);
         }
